@@ -9,6 +9,7 @@ S = 'src/python_minifier/'
 
 MUST_FIRE = [
     # ---- regressions of the defects D21-D26 (each fix undone)
+    ('C02', 'NUL in a string nested in a replacement field refused again (D28)', S + 'f_string.py', "        if not self.pep701 and ('\\0' in self._s or '\\\\' in self._s):", "        if '\\0' in self._s or ('\\\\' in self._s and not self.pep701):", 'C02.NUM'),
     ('C05', 'object bases removed although the module binds the name object (D27)', S + 'transforms/remove_object_base.py', "        if self.binds_object(node):", "        if False:", 'C05.OBJ'),
     ('C03', 'global / nonlocal statement rewritten by value again (D21)', S + 'rename/binding.py', "                names = list(node.names)\n                if self._name in names:\n                    names[names.index(self._name)] = new_name\n                node.names = names\n", "                node.names = [new_name if n == self._name else n for n in node.names]\n", 'C03.E2E'),
     ('C03', 'a global statement binds the name again (D22)', S + 'rename/bind_names.py', "        # It is resolved later, to the module binding if one exists, or as a builtin / unbound name otherwise\n        pass\n", "        for name in node.names:\n            self.get_binding(name, node.namespace).add_reference(node)\n", 'C03.E2E'),
